@@ -97,7 +97,7 @@ CLAIMED = {
              "its 48 strings run on every check from corpus/C15/patterns.txt and nothing suppresses a crash on them. Quarter() uses float64 ceil in Go and integer division in the model: covered by the "
              "exhaustive correspondence, not by proof."),
  "C08": dict(
-   text='9 theorems in coq/Properties/C08.v for ALL byte strings: lines lossless, blocks lossless, no blocks iff all blank, consecutive numbering, block shape, well-formed lines, located lines. Tied to the code by the `blocks` correspondence on conforming documents and byte streams with an independent re-concatenation/numbering/shape oracle and the no-op reconcile run.',
+   text='9 theorems in coq/Properties/C08.v for ALL byte strings: lines lossless, blocks lossless, no blocks iff all blank, consecutive numbering, block shape, well-formed lines, located lines. Tied to the code by the `blocks` correspondence on conforming documents and byte streams with an independent re-concatenation/numbering/shape oracle the same blocks demanded of the parallel parser for every worker count and forced arrival order (suite `parallel-blocks`), and the no-op reconcile run.',
    design="§4 C08", technique="Coq proof (list induction) over hand model; extracted-model-vs-Go differential correspondence",
    note=TB + 'Axioms: none. Model reflects fix F1.'),
  "C06": dict(
@@ -145,7 +145,7 @@ CLAIMED = {
    design="§4 C01", technique="Coq proof (layered induction over spec AST) over hand model; differential correspondence + grammar-based generator with expected denotation",
    note=TB + 'Axioms: none. C01_parse_rejects_malformed_entry_partial is the only partial statement (generic malformed entry via parse_entry_value = EvErr). Known finding K3 (Zs-only lines, refuted witness in the file). Model reflects fixes F2, F10.'),
  "C09": dict(
-   text='9 theorems in coq/Properties/C09.v: print = render of the canonical document, print/parse round trip under no_trailing_cr (K2 witness refuted), print idempotent, parse o print o parse = parse for every well-formed document, literal normalisations. Tied to the code by `klog print --no-style` through the real CLI on conforming documents: output parsed and printed again by model and implementation, with a round-trip/layout oracle.',
+   text='9 theorems in coq/Properties/C09.v: print = render of the canonical document, print/parse round trip under no_trailing_cr (K2 witness refuted), print idempotent, parse o print o parse = parse for every well-formed document, literal normalisations. Tied to the code by `klog print --no-style` through the real CLI on conforming documents: output parsed and printed again by model and implementation, with a round-trip/layout oracle; CRLF files with a summary line ending in a CR of its own (K2) are generated and recognised as the known finding only while klog answers exactly as the model of that defect does.',
    design="§4 C09", technique="Coq proof over hand model; differential correspondence through the real CLI + round-trip oracle",
    note=TB + 'Axioms: none. Known finding K2 (summary line ending in a lone CR).'),
  "C03": dict(
@@ -157,7 +157,7 @@ CLAIMED = {
    design="§4 C04", technique="Coq proof (refinement, partial) over hand model; differential correspondence on histories + abstract-model oracle",
    note=TB + 'Axioms: none. Known finding K15 (track with leading blank). Pause loop driven through the add-only tick hook; ticker and signals not modelled.'),
  "C05": dict(
-   text='14 theorems in coq/Properties/C05.v: success => the written file parses (all commands incl. every pause tick); failure of a non-pause command => file untouched, for every failure class and for a failure in step k of n (switch). Tied to the code by histories on valid and invalid targets with parameters chosen to make steps fail: success => parses, failure => bytes identical and non-zero exit, no crash.',
+   text='14 theorems in coq/Properties/C05.v: success => the written file parses (all commands incl. every pause tick); failure of a non-pause command => file untouched, for every failure class and for a failure in step k of n (switch). Tied to the code by histories on valid and invalid targets with parameters chosen to make steps fail: success => parses, failure => bytes identical and non-zero exit, no crash; plus an oracle-only suite whose user-supplied texts (track text, --summary) are hostile (carriage returns, empty and blank lines, NUL, BOM, invalid UTF-8, percent signs, very long lines).',
    design="§4 C05", technique="Coq proof over hand model; differential correspondence + fault-oriented histories",
    note=TB + "Axioms: none. Exit codes are read off klog.Run by the harness (not in the model). os.WriteFile atomicity is outside the property's quantifier."),
  "C11": dict(
